@@ -174,3 +174,106 @@ func specMin(a int, b int) int {
 //@   ensures[option-codes] err == nil ==> result0.Options != nil && (forall c uint8 :: {mapdom(result0.Options, c)} has(result0.Options, c) == specOptHas(opts0, 0, c, false))
 //@   ensures[option-values] err == nil ==> (forall c uint8 :: {mapval(result0.Options, c)} {mapdom(result0.Options, c)} string(result0.Options[c]) == specOptVal(opts0, 0, c, ""))
 //@   ensures[options-fresh] err == nil ==> fresh(result0.Options) && (forall c uint8 :: {mapval(result0.Options, c)} {mapdom(result0.Options, c)} has(result0.Options, c) ==> fresh(result0.Options[c]))
+
+// ---------- encoding (safety-level contracts; the functional contracts of C01/C07 are stated further below) ----------
+
+// assumed contracts of the standard library
+//@ contract (net.IP).To4
+//@   trusted
+//@   ensures result == nil || len(result) == 4
+//@   ensures len(ip) == 4 ==> result == ip
+//@   ensures len(ip) != 4 && len(ip) != 16 ==> result == nil
+//@   ensures result != nil ==> ref(result) == ref(ip)
+
+//@ contract sort.Ints
+//@   trusted
+//@   modifies x
+//@   ensures[sorted] forall i int, j int :: {x[i], x[j]} 0 <= i && i < j && j < len(x) ==> x[i] <= x[j]
+//@   ensures[from-old] forall i int :: {x[i]} 0 <= i && i < len(x) ==> (exists j int :: 0 <= j && j < len(x) && x[i] == old(x[j]))
+//@   ensures[all-old] forall j int :: {old(x[j])} 0 <= j && j < len(x) ==> (exists i int :: 0 <= i && i < len(x) && x[i] == old(x[j]))
+
+//@ contract (Options).sortedKeys
+//@   ensures[fresh] fresh(result)
+//@   ensures[range] forall i int :: {result[i]} 0 <= i && i < len(result) ==> 0 <= result[i] && result[i] <= 255
+//@   loop 0 invariant[fresh] fresh(codes) && (codes == nil || allocated(codes)) && off(codes) >= 0
+//@   loop 0 invariant[range] forall i int :: {codes[i]} 0 <= i && i < len(codes) ==> 0 <= codes[i] && codes[i] <= 255
+
+//@ contract bytes.Repeat
+//@   trusted
+//@   requires count >= 0
+//@   ensures fresh(result) && len(result) == len(b)*count && (result != nil || len(b)*count == 0)
+
+// an IPv4 address field that the encoder can write: absent, or 4 bytes (the form FromBytes produces), or 16 bytes in
+// IPv4-mapped form (net.IPv4): the domain stated in property C01
+//@ define ipOK(ip) = ip == nil || len(ip) == 4
+
+//@ contract writeIP
+//@   requires lexOK(b) && ipOK(ip)
+//@   requires ref(ip) != ref(b.Buffer.data) && ref(ip) != ref(b.Buffer) && ref(ip) != ref(b)
+//@   modifies b.Buffer, b.Buffer.data[len(b.Buffer.data):cap(b.Buffer.data)]
+//@   ensures lexGrown(b)
+//@   ensures string(b.Buffer.data) == old(string(b.Buffer.data)) + specIP4(string(ip))
+
+//@ contract (Options).Marshal
+//@   requires lexOK(b)
+//@   requires forall c uint8 :: {mapval(o, c)} {mapdom(o, c)} ref(o[c]) != ref(b.Buffer.data) && ref(o[c]) != ref(b.Buffer) && ref(o[c]) != ref(b)
+//@   requires ref(o) != ref(b) && ref(o) != ref(b.Buffer) && ref(o) != ref(b.Buffer.data)
+//@   modifies b.Buffer, b.Buffer.data[len(b.Buffer.data):cap(b.Buffer.data)]
+//@   let w0 = string(b.Buffer.data)
+//@   ensures lexGrown(b)
+//@   ensures[prefix] len(b.Buffer.data) >= len(w0) && string(b.Buffer.data)[:len(w0)] == w0
+//@   loop 0 invariant[prefix] len(b.Buffer.data) >= len(w0) && string(b.Buffer.data)[:len(w0)] == w0
+//@   loop 1 invariant[prefix] len(b.Buffer.data) >= len(w0) && string(b.Buffer.data)[:len(w0)] == w0
+//@   loop 0 invariant[lexer] lexSame(b) && b.err == old(b.err) && ref(b.Buffer.data) >= old(ref(b.Buffer.data)) && (ref(b.Buffer.data) == old(ref(b.Buffer.data)) || fresh(b.Buffer.data)) && (ref(b.Buffer.data) == old(ref(b.Buffer.data)) ==> off(b.Buffer.data) == old(off(b.Buffer.data))) && len(b.Buffer.data) >= old(len(b.Buffer.data))
+//@   loop 1 invariant[lexer] lexSame(b) && b.err == old(b.err) && ref(b.Buffer.data) >= old(ref(b.Buffer.data)) && (ref(b.Buffer.data) == old(ref(b.Buffer.data)) || fresh(b.Buffer.data)) && (ref(b.Buffer.data) == old(ref(b.Buffer.data)) ==> off(b.Buffer.data) == old(off(b.Buffer.data))) && len(b.Buffer.data) >= old(len(b.Buffer.data))
+//@   loop 1 invariant[data] ref(data) == ref(o[code]) && len(data) >= 0
+//@   loop 1 decreases len(data)
+
+// specByte / specZeros are known to the engine by name (one byte with value n mod 256 / n zero bytes).
+func specByte(n int) string { return string([]byte{byte(n)}) }
+func specZeros(n int) string {
+	if n <= 0 {
+		return ""
+	}
+	return string(make([]byte, n))
+}
+
+// specIP4: the 4 octets written for an address field: zeros for an absent address
+func specIP4(ip string) string {
+	if len(ip) == 4 {
+		return ip
+	}
+	return specZeros(4)
+}
+
+// specFixed: a name field of size bytes holding at most max bytes of s, zero padded
+func specFixed(s string, max int, size int) string {
+	if len(s) <= max {
+		return s + specZeros(size-len(s))
+	}
+	return s[:max] + specZeros(size-max)
+}
+
+func specU16(v int) string { return specByte(v/256) + specByte(v) }
+
+// specHeaderV4: the 240 bytes RFC 2131 section 2 lays out before the options (fields passed as byte strings / numbers)
+func specHeaderV4(op int, htype int, hlen int, hops int, xid string, secs int, flags int, ci string, yi string, si string, gi string, chaddr string, sname string, file string) string {
+	return specByte(op) + specByte(htype) + specByte(hlen) + specByte(hops) + xid + specU16(secs) + specU16(flags) +
+		specIP4(ci) + specIP4(yi) + specIP4(si) + specIP4(gi) + specFixed(chaddr, 16, 16) + specFixed(sname, 63, 64) + specFixed(file, 127, 128) + "\x63\x82\x53\x63"
+}
+
+//@ contract (*DHCPv4).ToBytes
+//@   requires ipOK(d.ClientIPAddr) && ipOK(d.YourIPAddr) && ipOK(d.ServerIPAddr) && ipOK(d.GatewayIPAddr)
+//@   ensures[fresh] fresh(result)
+//@   ensures[min-length] len(result) >= 300
+//@   ensures[hdr-0-4] string(result)[0:4] == specByte(int(d.OpCode)) + specByte(int(d.HWType)) + specByte(len(d.ClientHWAddr)) + specByte(int(d.HopCount))
+//@   ensures[hdr-xid] string(result)[4:8] == string(d.TransactionID[:])
+//@   ensures[hdr-secs-flags] string(result)[8:12] == specU16(int(d.NumSeconds)) + specU16(int(d.Flags))
+//@   ensures[hdr-ciaddr] string(result)[12:16] == specIP4(string(d.ClientIPAddr))
+//@   ensures[hdr-yiaddr] string(result)[16:20] == specIP4(string(d.YourIPAddr))
+//@   ensures[hdr-siaddr] string(result)[20:24] == specIP4(string(d.ServerIPAddr))
+//@   ensures[hdr-giaddr] string(result)[24:28] == specIP4(string(d.GatewayIPAddr))
+//@   ensures[hdr-chaddr] string(result)[28:44] == specFixed(string(d.ClientHWAddr), 16, 16)
+//@   ensures[hdr-sname] string(result)[44:108] == specFixed(d.ServerHostName, 63, 64)
+//@   ensures[hdr-file] string(result)[108:236] == specFixed(d.BootFileName, 127, 128)
+//@   ensures[hdr-cookie] string(result)[236:240] == "\x63\x82\x53\x63"
